@@ -574,7 +574,7 @@ package gen
 
 //@ iface Field.Read
 //@   requires external(r)
-//@   modifies obj(self), heap("[]int64"), heap("[]string"), heap("[]bool"), heap("[]float32"), heap("[]float64"), heap("parquet.readCounter"), srcPos, rfault, vPage, vDefs, curNV
+//@   modifies obj(self), heap("[]int64"), heap("[]string"), heap("[]bool"), heap("[]float32"), heap("[]float64"), heap("parquet.readCounter"), srcPos, rd, vPage, vDefs, curNV
 //@   ensures[C10] err == nil ==> (rfault ==> old(rfault))
 
 //@ iface Field.Scan
@@ -598,7 +598,7 @@ package gen
 //@ func NewParquetReader
 //@   verify[C13]
 //@   requires external(r)
-//@   modifies allheaps, srcPos, rfault, vPage, vDefs, curNV
+//@   modifies allheaps, srcPos, rd, vPage, vDefs, curNV
 //@   ensures[C11] err == nil ==> srcSize >= 8 && srcMagic(srcSize - 4) && srcLE32(srcSize - 8) + 8 <= srcSize
 //@   ensures err == nil ==> readerOK(res0)
 //@   ensures[C10] err == nil ==> (rfault ==> old(rfault))
@@ -609,7 +609,7 @@ package gen
 
 //@ func (*ParquetReader).readRowGroup
 //@   requires readerOK(p)
-//@   modifies p, anyobj("GEN.Field"), heap("map[string][]parquet.Page"), heap("[]int64"), heap("[]string"), heap("[]bool"), heap("[]float32"), heap("[]float64"), heap("parquet.readCounter"), srcPos, rfault, vPage, vDefs, curNV
+//@   modifies p, anyobj("GEN.Field"), heap("map[string][]parquet.Page"), heap("[]int64"), heap("[]string"), heap("[]bool"), heap("[]float32"), heap("[]float64"), heap("parquet.readCounter"), srcPos, rd, vPage, vDefs, curNV
 //@   ensures p.r == old(p.r)
 //@   ensures[C10] err == nil ==> (rfault ==> old(rfault))
 //@ loop (*ParquetReader).readRowGroup#1
@@ -618,7 +618,7 @@ package gen
 //@ func (*ParquetReader).Next
 //@   verify[C13]
 //@   requires readerOK(p)
-//@   modifies p, anyobj("GEN.Field"), heap("map[string][]parquet.Page"), heap("[]int64"), heap("[]string"), heap("[]bool"), heap("[]float32"), heap("[]float64"), heap("parquet.readCounter"), srcPos, rfault, vPage, vDefs, curNV
+//@   modifies p, anyobj("GEN.Field"), heap("map[string][]parquet.Page"), heap("[]int64"), heap("[]string"), heap("[]bool"), heap("[]float32"), heap("[]float64"), heap("parquet.readCounter"), srcPos, rd, vPage, vDefs, curNV
 //@   ensures p.r == old(p.r)
 //@   ensures[C10] rfault && !old(rfault) ==> !res && p.err != nil
 
